@@ -302,6 +302,22 @@ def lookup_global(self, m: ModuleInfo, name: str, st: State, node=None) -> Term:
                     return mk("ext", rb[1] + d[len(base):])
                 if rb is None and base in PY_BUILTINS | BUILTIN_EXC:
                     return mk("builtin", d)
+        if self.sym_bytes and isinstance(expr, (ast.Call, ast.BinOp, ast.Subscript)) and (rm.name, name) not in self._global_eval_busy:
+            # concrete-control scenarios: a module-level value defined by an expression over constants (e.g. a DER-encoded OID)
+            # is obtained by interpreting that expression in its module; cached; opaque when it does not come out constant
+            self._global_eval_busy.add((rm.name, name))
+            try:
+                sub = type(self)(self.prog, policy=self.policy)
+                sub.sym_bytes = True
+                sub.summaries = self.summaries
+                r2 = sub.run_driver(rm, "def drv():\n    return %s\n" % ast.unparse(expr))
+                if not r2.dead and r2.ret is not None and (is_const(r2.ret) or r2.ret.op == "sbytes"):
+                    self.global_store[(rm.name, name)] = r2.ret
+                    return r2.ret
+            except (Unsupported, PathDead, RecursionError):
+                pass
+            finally:
+                self._global_eval_busy.discard((rm.name, name))
         return mk("global", rm.name, name)
     if name in ("True", "False", "None"):
         return C({"True": True, "False": False, "None": None}[name])
